@@ -95,6 +95,11 @@ def shard(a):
             ys.append(v[:1] + seps[0] + v[1:len(v) // 2] + seps[-1] + v[len(v) // 2:])
         if pr['lower']:
             ys.append(v.lower())
+        # separators that belong to the number written in another style: all of them, only the first, only the last
+        sp = [i for i, c in enumerate(v) if c in '-:./ ']
+        for alt in ('-', ':', '.', ' ') if sp and len(v) <= 40 else ():
+            for idx in (sp, sp[:1], sp[-1:]):
+                ys.append(''.join(alt if i in idx else c for i, c in enumerate(v)))
         for y in ys:
             prop({'mod': name, 'x': v, 'y': y}, res)
     used = res.hist['pair:accept'] + res.hist['pair:reject']
